@@ -30,27 +30,6 @@ end Cog.Gen
 """
 
 
-def build_harness():
-    """The C03 streams only need harness/{main,prng,util}.go and harness/c03_*.go; building just
-    those (same overlay technique as core.build_go) keeps this check independent of harness
-    files of other properties that may be under construction."""
-    import glob
-    from verifkit.core import BIN, Lock
-    os.makedirs(BIN, exist_ok=True)
-    name = "verifharness_c03"
-    files = [os.path.join(VERIF, "harness", f) for f in ("main.go", "prng.go", "util.go")]
-    files += sorted(glob.glob(os.path.join(VERIF, "harness", "c03_*.go")))
-    with Lock("gobuild-" + name):
-        ov = os.path.join(WORK, "overlay-%s.json" % name)
-        with open(ov, "w") as fh:
-            json.dump({"Replace": {os.path.join(REPO, "cmd", name, os.path.basename(f)): f for f in files}}, fh)
-        out = os.path.join(BIN, name)
-        p = run(["go", "build", "-overlay", ov, "-o", out, "./cmd/" + name], cwd=REPO, env=GOENV)
-        if p.returncode != 0:
-            return None, p.stderr
-        return out, ""
-
-
 def _write_if_changed(path, text):
     os.makedirs(os.path.dirname(path), exist_ok=True)
     if os.path.exists(path) and open(path, encoding="utf-8").read() == text:
